@@ -167,6 +167,8 @@ func (s *supARFO) childStarted(cs supChildSpec, pid gen.PID) supAction {
 		return action
 	}
 
+	// nothing left to start: the rest is running or disabled
+	s.mode = 0 // normal
 	return action
 }
 
